@@ -444,6 +444,23 @@ fn grid_unchecked(e: &mut Emit) {
     e.line("done");
 }
 
+/// The registry's very first call in a process may be a removal (it answers "nothing removed").
+fn grid_first_call(variant: usize, e: &mut Emit) {
+    let r = std::panic::catch_unwind(|| {
+        if variant == 0 {
+            #[allow(deprecated)]
+            reg::unregister_signal(libc::SIGUSR1)
+        } else {
+            #[allow(deprecated)]
+            reg::unregister_signal(libc::SIGRTMIN() + 2)
+        }
+    });
+    e.line(&format!("first-call {}", match r { Ok(b) => format!("{}", b), Err(_) => "panic".to_string() }));
+    let id = unsafe { reg::register(libc::SIGUSR1, || note(1)) };
+    e.line(&format!("then-register {}", if id.is_ok() { "ok" } else { "err" }));
+    e.line("done");
+}
+
 fn grid_restart(e: &mut Emit) {
     reset_all();
     let s = libc::SIGUSR1;
@@ -485,7 +502,7 @@ pub fn run(tier: Tier) -> BResult {
     let n = prefixes.len();
     let pre2 = prefixes.clone();
     let nprev = PREV_FLAGS.len() * PREV_SIGS.len() * 2;
-    let probes = run_cells(n + 4 + nprev, 16, Duration::from_secs(if tier == Tier::Quick { 50 } else { 900 }), move |i, e| {
+    let probes = run_cells(n + 6 + nprev, 16, Duration::from_secs(if tier == Tier::Quick { 50 } else { 900 }), move |i, e| {
         if i < n {
             bfs_chunk(&pre2[i], depth, e)
         } else if i == n {
@@ -496,8 +513,10 @@ pub fn run(tier: Tier) -> BResult {
             grid_restart(e)
         } else if i < n + 3 + nprev {
             grid_prev_flags(i - n - 3, e)
-        } else {
+        } else if i == n + 3 + nprev {
             grid_unchecked(e)
+        } else {
+            grid_first_call(i - (n + 4 + nprev), e)
         }
     });
     let mut violations = Vec::new();
@@ -592,6 +611,13 @@ pub fn run(tier: Tier) -> BResult {
         }
         if let Some(m) = bad {
             violations.push(BViolation { message: format!("C05: signal {} taken over from a {} handler installed with {}: {}", PREV_SIGS[si], if info { "three-argument" } else { "one-argument" }, PREV_FLAGS[fi].1, m), case });
+        }
+    }
+    for k in 0..2 {
+        let p = &probes[n + 4 + nprev + k];
+        grid_cells += 1;
+        if p.find("first-call ") != Some("false") || p.find("then-register ") != Some("ok") || !p.has("done") {
+            violations.push(BViolation { message: format!("C05: unregister_signal as the very first registry call of a process: observed {:?} (the process {}); the model says it returns false and the registry works afterwards", p.lines, p.fate.describe()), case: json!({"grid": "first call is a removal", "variant": k}) });
         }
     }
     let gu = &probes[n + 3 + nprev];
